@@ -110,7 +110,7 @@ func c27Link(where string, kind int, root string) {
 	case 0:
 		verif_fs_symlink(root, where) // outside directory
 	case 1:
-		verif_fs_symlink(root+"/f", where) // outside file
+		verif_fs_symlink(root+"/b", where) // outside file
 	case 2:
 		verif_fs_symlink(".", where) // inside directory
 	case 3:
@@ -120,8 +120,10 @@ func c27Link(where string, kind int, root string) {
 
 func c27Prestate(root, dest string) {
 	verif_fs_mkdir(dest)
-	verif_fs_write(root+"/f", []byte{1, 2})
-	verif_fs_write(root+"/o/f", []byte{3})
+	// outside: names that archive entries over the alphabet {a, b} can spell when they
+	// escape through a link (d/x -> root makes "x/b" the outside file)
+	verif_fs_write(root+"/b", []byte{1, 2})
+	verif_fs_write(root+"/a/b", []byte{3})
 	switch verif_choose(4) {
 	case 0:
 	case 1:
@@ -139,7 +141,7 @@ func c27Prestate(root, dest string) {
 		}
 	}
 	if verif_choose(2) == 1 {
-		verif_fs_symlink(root+"/f", dest+"/b")
+		verif_fs_symlink(root+"/b", dest+"/b")
 	}
 }
 
@@ -189,7 +191,7 @@ func harnessC27Witness() { c27Step(true) }
 func harnessC27Chain() {
 	root := verif_fs_path("r")
 	dest := root + "/d"
-	verif_fs_write(root+"/f", []byte{1, 2})
+	verif_fs_write(root+"/b", []byte{1, 2})
 	n1, n2 := c27Name(1), c27Name(1)
 	c27Entries, c27Pos = []c27Entry{
 		{typ: tar.TypeSymlink, name: n1, linkname: "."},
